@@ -3,7 +3,8 @@
 Encoded from MIR: ConnectionState::process arms ConsumeOk / Deliver + content / Cancel / CancelOk / Channel.Close /
 Channel.CloseOk / Connection.Close / Connection.CloseOk with send, the collector and the slot/consumer tables.
 BMC over histories of K symbolic frames from that alphabet on a channel with a registered consumer (plus
-consumers created by ConsumeOk during the history).  API side (Consumer::cancel idempotent, Drop cancels): c12.
+consumers created by ConsumeOk during the history); one step of a server Connection.Close over two channels with consumers;
+API side: Consumer::cancel (called by Drop) never reads the consumer's queue and cancels once.
 """
 from iocommon import *
 from ioreplay import Validator, report_io
@@ -141,8 +142,86 @@ def body(ctx):
         elif hi % 211 == ctx.seed % 211 and len(VAL.cases) < ctx.q(3, 10) and not any(isinstance(rv, Panic) for (_, rv) in evs):
             VAL.add(s, w, res, s.pc, [fs for (fs, _) in evs], events=evlist(evs), label=f"history#{hi}")
     ctx.extra['process_paths'] = total
+    # a server Connection.Close with consumers on several channels: every one of them is told (one step, two channels)
+    import c08
+    c08.VAL = VAL
+    c08.server_close(ctx, ex, prog, [])
+    consumer_api(ctx, prog)
     VAL.run()
     ctx.twin('c11.twin: some history ends with a terminal message', [], z3.BoolVal(not any(any(consumer_msg_kind(prog, m_) in TERMINALS for m_ in queue_msgs(s.roots['w'].slots['A']['consumers']['c0'][1])) for (s, _) in finished)))
+
+
+def consumer_api(ctx, prog):
+    """user side: Consumer::cancel / Drop never take anything out of the consumer's own queue (what the I/O thread queued,
+    including the terminal message, is still there for the user), send Basic.Cancel at most once, and are idempotent"""
+    import c12
+    from apireplay import API_PRELUDE
+    ex = io_executor(ctx, prog, extra=cell_summaries())
+    f_cancel = prog.method('Consumer', 'cancel')
+    ctx.bound('consumer_api', 'Consumer::cancel on a consumer whose queue holds two unread messages, sender alive or gone, already cancelled or not, arbitrary reply to the Cancel')
+    viol = []
+    for alive in (True, False):
+        st = State()
+        cell, info = mk_channel(prog, st, replies=[Lazy('std::result::Result<ChannelMessage, errors::Error>', 'reply')])
+        q = Chan('consumer.queue', None, True)
+        q.queue += [Lazy('consumer::ConsumerMessage', 'unread0'), Lazy('consumer::ConsumerMessage', 'unread1')]
+        q.senders = 1 if alive else 0
+        cancelled = sym('consumer.cancelled', z3.BoolSort())
+        c = mk_struct(prog, 'Consumer', channel=Ref(st.roots['ch']), consumer_tag=Str(sym('self.tag', StrSort)), rx=ReceiverVal(q), cancelled=Agg({0: Bool(cancelled)}, 'Cell'))
+        st.roots['cq'] = q
+        n = 0
+        for (s, rv) in ex.run(st, f_cancel, [Ref(Cell(c, 'consumer'))]):
+            n += 1
+            q1 = s.roots['cq']
+            inf = s.roots['ch.info']
+            frames = sent_frames(prog, inf)
+            names = [getattr(m_, 'name', None) for m_ in q1.queue]
+            conds = [z3.BoolVal(names == ['unread0', 'unread1']), z3.BoolVal(not isinstance(rv, Panic))]
+            if len(frames) == 0:
+                conds.append(cancelled)
+            else:
+                one = len(frames) == 1 and frames[0][1] is not None and frames[0][1]['kind'] == 'method' and method_of(prog, frames[0][1])[:2] == ('Basic', 'Cancel')
+                conds += [z3.BoolVal(bool(one)), z3.Not(cancelled)]
+            m = ctx.decide(f"c11.consumer-cancel[{'alive' if alive else 'gone'}]#{n}", s.pc, z3.And(*conds),
+                           group="Consumer::cancel leaves the consumer's queue untouched (unread deliveries and the terminal message stay readable), sends Basic.Cancel exactly once per consumer, nothing when already cancelled")
+            if m is not None:
+                viol.append((alive, names, len(frames), ctx.explain(m, conds)[:2]))
+    if viol:
+        test = API_PRELUDE + r"""
+fn mk_delivery(chan: u16, tag: u64) -> crate::Delivery {
+    let (_t, d) = crate::Delivery::new(chan, amq_protocol::protocol::basic::Deliver { consumer_tag: "t".into(), delivery_tag: tag, redelivered: false, exchange: "".into(), routing_key: "".into() }, Vec::new(), Default::default());
+    d
+}
+#[test]
+fn verif_replay_c11_consumer_api() {
+    use crate::io_loop::ChannelMessage;
+    use crate::ConsumerMessage;
+    let mut bad: Vec<String> = Vec::new();
+    for alive in [true, false].iter() {
+        for twice in [false, true].iter() {
+            let (ch, rx, tx) = mk_channel(4, 4088);
+            let (ctx_, crx) = crossbeam_channel::unbounded();
+            ctx_.send(ConsumerMessage::Delivery(mk_delivery(4, 1))).unwrap();
+            ctx_.send(ConsumerMessage::Delivery(mk_delivery(4, 2))).unwrap();
+            if !*alive { ctx_.send(ConsumerMessage::ServerCancelled).unwrap(); }
+            let keep = if *alive { Some(ctx_) } else { drop(ctx_); None };
+            let c = crate::Consumer::new(&ch, "t".to_string(), crx);
+            tx.send(Ok(ChannelMessage::Method(AMQPClass::Basic(amq_protocol::protocol::basic::AMQPMethod::CancelOk(amq_protocol::protocol::basic::CancelOk { consumer_tag: "t".into() }))))).unwrap();
+            let _ = c.cancel();
+            if *twice { let _ = c.cancel(); }
+            let sent = raw_of(&rx).len();
+            let mut got: Vec<String> = Vec::new();
+            while let Ok(m) = c.receiver().try_recv() { got.push(match m { ConsumerMessage::Delivery(d) => format!("D{}", d.delivery_tag()), other => format!("{:?}", other) }); }
+            let want: Vec<String> = if *alive { vec!["D1".into(), "D2".into()] } else { vec!["D1".into(), "D2".into(), "ServerCancelled".into()] };
+            if got != want || sent != 1 { bad.push(format!("alive={}:twice={}:queue={:?}:cancel_frames={}", alive, twice, got, sent)); }
+            std::mem::forget(c); std::mem::forget(ch); drop(keep);
+        }
+    }
+    if bad.is_empty() { println!("VERIF-REPLAY-OK"); } else { println!("VERIF-REPLAY-VIOLATION consumer-cancel-api {}", bad.join(";").replace(' ', "_")); }
+}
+"""
+        ctx.report('consumer-cancel-api', f"Consumer::cancel disturbs the consumer's own queue or the Cancel it sends: {str(viol[0])[:300]}", {'solver_counterexamples': [str(v)[:300] for v in viol[:4]]},
+                   test, inject_into='src/io_loop/channel_handle.rs', profiles=('dev',), hang_is_violation=True)
 
 
 if __name__ == '__main__':
